@@ -48,6 +48,8 @@ type scenario struct {
 	Shallow   string             `json:"shallow_path"`
 	Faults    []fault            `json:"faults"`
 	RevPrefix bool               `json:"rev_paths"` // print " path" after tree/blob ids like git does
+	RevPathLen int               `json:"rev_path_len"` // ... a path of this many bytes (0: "some/path")
+	DelayMs   map[string]int     `json:"delay_ms"`  // invocation name -> milliseconds to sleep before the first byte of output
 }
 
 func die(code int, msg string) {
@@ -207,6 +209,9 @@ func main() {
 		}
 	}
 
+	if ms, ok := sc.DelayMs[name]; ok && ms > 0 {
+		time.Sleep(time.Duration(ms) * time.Millisecond)
+	}
 	// git writes the object listing of rev-list through stdio: blocks of 4096 bytes on a pipe
 	bufSize := 1 << 16
 	if name == "rev-list" {
@@ -314,7 +319,11 @@ func main() {
 		for _, o := range list {
 			t := sc.Objects[o].Type
 			if sc.RevPrefix && (t == "tree" || t == "blob") {
-				fmt.Fprintf(out, "%s some/path\n", o)
+				p := "some/path"
+				if sc.RevPathLen > 0 {
+					p = strings.Repeat("p", sc.RevPathLen)
+				}
+				fmt.Fprintf(out, "%s %s\n", o, p)
 			} else {
 				fmt.Fprintf(out, "%s\n", o)
 			}
